@@ -293,7 +293,7 @@ class pdb2sql(pdb2sql_base):
             elif first_char == "H" and last_char:
                 elem = "H"
             else:
-                elem = pdb_line[12:14]
+                elem = pdb_line[12:14].strip()
         else:
             elem = pdb_line[13]
         # warnings.warn(f'Element is missing and guessed using atom type for line\n {pdb_line}')
